@@ -45,4 +45,9 @@ w('C04', 'fixed-break-in-inner-light-loop', 'break inside an inner light-list lo
 w('C04', 'fixed-return-in-light-loop-leaves-names', 'return inside a light-list loop left names on the evaluation stack of the caller',
   [['routine', 'f1', [], [['repeat', ['all', 'lt2', None], [['return', N(1)]]], ['return', N(2)]]],
    ['repeat', ['all', 'lt1', None], [['print', ['bin', '+', N(10), ['call', 'f1', []]]], ['action', 'on', [['light', V('lt1')]]]]]], POP)
+w('C15', 'fixed-matrix-cell-rounded-before-conversion', 'a logical hue of 77.5 in a stage was rounded to 78 before conversion to raw',
+  [['setreg', 'hue', ['num', '77.5']], ['setreg', 'saturation', N(100)], ['setreg', 'brightness', ['num', '33.3']], ['setreg', 'kelvin', N(2700)],
+   ['action', 'set', [['matrix_block', S('M'), [['stage', [N(1), None], [N(0), N(2)], 'rc']]]]]], POP)
+w('C15', 'fixed-float-loop-index-as-row', "'repeat 3 with r from 0 to 2 begin stage row r end' aborted: the interpolated index is a float",
+  [['action', 'set', [['matrix_block', S('M'), [['repeat', ['interp', N(3), 'a', N(0), N(2)], [['stage', [V('a'), None], None, 'rc']]]]]]]], POP)
 print('ok')
